@@ -458,6 +458,43 @@ def fixed_cases(thorough: bool = False):
                     out.append({"kind": kind, "manifest": name, "mode": mode, "stream": stream, "query": q,
                                 "rawquery": False, "host": "localhost", "now": "2024-05-06T07:08:09Z",
                                 "stored": {}, "hostile": []})
+    # clock / age grid: every live template x single / multi-period, the stream in its first seconds of
+    # life or at the edge of its time shift buffer, at clock phases on both sides of the half second
+    import datetime as _dt
+    import random
+    grng = random.Random(20240229)
+    utc = _dt.timezone.utc
+
+    def young(kind, stream, name, now, start, depth):
+        return {"kind": kind, "manifest": name, "mode": "live", "stream": stream,
+                "query": [["start", start], ["depth", str(depth)]], "rawquery": False, "host": "localhost",
+                "now": W.segchecks.iso(now), "stored": {}, "hostile": []}
+
+    for name, mft in W.manifests().items():
+        if "live" not in mft["modes"]:
+            continue
+        for kind, stream in (("single", "bbb"), ("multi", "c05mps"), ("multi", "c05mpl")):
+            base = _dt.datetime(2024, 2, 29, 7, 8, 9, tzinfo=utc)
+            for sec, us in ((0, 0), (0, 250000), (0, 500000), (1, 500000), (0, 750000), (0, 999999)):
+                now = base + _dt.timedelta(seconds=sec, microseconds=us)
+                # explicit start three seconds before the clock, buffer of 20 s: age < depth
+                out.append(young(kind, stream, name, now, W.segchecks.iso(base - _dt.timedelta(seconds=3)), 20))
+            now = _dt.datetime(2025, 1, 1, 0, 0, 7, 750000, tzinfo=utc)
+            out.append(young(kind, stream, name, now, "now", 120))      # the server makes it one minute old
+            out.append(young(kind, stream, name, now, "today", 300))    # seven seconds after midnight
+            out.append(young(kind, stream, name, now, "year", 60))
+            out.append(young(kind, stream, name, _dt.datetime(2024, 3, 1, 0, 1, 0, 999999, tzinfo=utc), "month", 61))
+            out.append(young(kind, stream, name, base + _dt.timedelta(microseconds=500001),
+                             W.segchecks.iso(base - _dt.timedelta(seconds=20)), 20))     # age == depth
+            out.append(young(kind, stream, name, base + _dt.timedelta(microseconds=750000),
+                             W.segchecks.iso(base - _dt.timedelta(seconds=21)), 20))     # age == depth + 1
+            if thorough:
+                for scenario in range(5):
+                    for _ in range(3):
+                        now, q = W.young_stream(grng, [], scenario)
+                        c = young(kind, stream, name, now, "now", 0)
+                        c["query"] = q
+                        out.append(c)
     # track-layout grid: streams whose audio / video / text files share or spread track ids and codec
     # families x every template x mode x track-selection options (what the grouping code looks at)
     k = 0
